@@ -60,7 +60,7 @@ def preds(u, task):
     return []
 
 
-def gen_case(rng, big=False, want_compound=None):
+def gen_case(rng, big=False, want_compound=None, risky=False):
     ntp = rng.range(1, 9 if not big else 26)
     tps = []
     for i in range(ntp):
@@ -98,10 +98,12 @@ def gen_case(rng, big=False, want_compound=None):
         order.append(pool.pop(rng.below(len(pool))))
     seen_tps = []   # plain taskpool ids (members included) that will run before
     for u in order:
-        choices = ['master']
         cand_task = [t for t in seen_tps if ntasks(tps[t]) > 0]
         cand_cb = [t for t in seen_tps if tps[t]['cb']]
-        if cand_task and rng.chance(2, 5):
+        if u['kind'] == 'comp' and not risky:
+            # a compound added from inside an epoch can deadlock the wait (finding, replayed by a job of its own)
+            u['adder'] = ('master',)
+        elif cand_task and rng.chance(2, 5):
             t = rng.choice(cand_task)
             u['adder'] = ('task', t, rng.choice(task_ids(tps[t])))
         elif cand_cb and rng.chance(1, 4):
@@ -421,6 +423,7 @@ def runtime_ops(case, ev):
 KEY_COMPOUND_EARLY = 'compound-taskpool-completes-when-added'
 KEY_TPWAIT_COMPOUND = 'taskpool_wait-on-compound-returns-before-its-taskpools-ran'
 KEY_TPWAIT_FIRST = 'taskpool_wait-before-first-context_wait-crashes'
+KEY_COMPOUND_HANG = 'compound-added-inside-an-epoch-can-deadlock-parsec_context_wait'
 WARMUP = {'units': [], 'program': ['start', 'wait']}
 TPWAIT_FIRST = {'units': [{'kind': 'tp', 'id': 0, 'shape': 'chain', 'n': 2, 'delay': 0, 'cb': True, 'adder': ('master',)}],
                 'program': [('add', 0), 'start', ('tpwait', 0), 'wait', 'active']}
@@ -582,9 +585,10 @@ def run_common(ctx, res, prop, oracle, known_keys, want_compound, lines_override
     if lines_override is not None:
         jobs.append(('replay', lines_override, 2, 'lfq', 1))
     else:
-        if corpus:
-            jobs.append(('corpus', [c for _, c in corpus], 2, 'lfq', 0))
-            jobs.append(('corpus', [c for _, c in corpus], 4, 'ap', 1))
+        plain = [c for f, c in corpus if 'inside-epoch' not in f]
+        if plain:
+            jobs.append(('corpus', plain, 2, 'lfq', 0))
+            jobs.append(('corpus', plain, 4, 'ap', 1))
         nproc = 10 if quick else 66
         ncase = 9 if quick else 24
         for j in range(nproc):
@@ -602,7 +606,12 @@ def run_common(ctx, res, prop, oracle, known_keys, want_compound, lines_override
     jobs = [(lab, [WARMUP] + list(cs), K, sched, keep) for (lab, cs, K, sched, keep) in jobs]
     if lines_override is None and prop == 'C06':
         jobs.append(('tpwait-first', [TPWAIT_FIRST], 1, 'lfq', 1))
-    outs = run_parallel([(exe, [render(c) for c in cs], K, sched, keep, 300 if quick else 900, 25) for (_, cs, K, sched, keep) in jobs],
+    if lines_override is None and prop == 'C15':
+        risky = [c for f, c in corpus if 'inside-epoch' in f]
+        r2 = rng.fork(777)
+        for j, (K, sched) in enumerate([(4, 'ltq'), (2, 'gd'), (6, 'll')] if quick else [(4, 'ltq'), (2, 'gd'), (6, 'll'), (3, 'lfq'), (2, 'spq'), (8, 'ap')]):
+            jobs.append(('inside-epoch', [WARMUP] + risky + [gen_case(r2.fork(j * 10 + k), want_compound=True, risky=True) for k in range(3)], K, sched, 0))
+    outs = run_parallel([(exe, [render(c) for c in cs], K, sched, keep, 300 if quick else 900, 8 if lab == 'inside-epoch' else 25) for (lab, cs, K, sched, keep) in jobs],
                         maxpar=5 if quick else 6)
     dist = {'histories': 0, 'events': 0, 'epochs': 0, 'threads': {}, 'schedulers': {}, 'taskpools': 0, 'compounds': 0,
             'compound_sizes': {}, 'adds_by_master': 0, 'adds_by_task': 0, 'adds_by_callback': 0, 'taskpool_waits': 0,
@@ -625,13 +634,21 @@ def run_common(ctx, res, prop, oracle, known_keys, want_compound, lines_override
         for x in hviols:
             k = 'hang' if x.startswith('hang') else 'harness'
             idx = len(tcs) - 1
+            hcase = cs[idx] if 0 <= idx < len(cs) else None
+            if k == 'hang' and hcase is not None and any(u['kind'] == 'comp' and tuple(u.get('adder', ('master',)))[0] != 'master' for u in hcase['units']):
+                if KEY_COMPOUND_HANG not in seen_v:
+                    seen_v.add(KEY_COMPOUND_HANG)
+                    res.violations.append({'key': KEY_COMPOUND_HANG, 'what': x + ' — all other threads left the loop at the transient zero of active_taskpools and sit at the end-of-epoch barrier',
+                                           'case': hcase, 'script': render(hcase), 'history': tcs[-1]['ops'][-40:], 'threads': K, 'sched': sched, 'keep': keep})
+                continue
             res.violations.append({'key': '%s K=%d sched=%s' % (k, K, sched), 'what': x, 'case': cs[idx] if 0 <= idx < len(cs) else None,
                                    'history': tcs[-1]['ops'][-60:] if tcs else [], 'threads': K, 'sched': sched, 'keep': keep})
         if rc != 0 and not hviols:
             res.violations.append({'key': 'harness-exit-%d K=%d sched=%s' % (rc, K, sched), 'what': 'harness exited with %d after %d complete cases: %s' % (rc, len(tcs), err[-500:]),
                                    'case': cs[len(tcs) - 1] if 0 < len(tcs) <= len(cs) else None, 'threads': K, 'sched': sched, 'keep': keep})
+        hung = any(x.startswith('hang') for x in hviols)
         for i, tc in enumerate(tcs):
-            if i >= len(cs):
+            if i >= len(cs) or (hung and i == len(tcs) - 1):
                 break
             case = cs[i]
             if i == 0 and case is WARMUP:
